@@ -127,6 +127,7 @@ var c20Odds = []c20Odd{
 	{Name: "self-call-cycle", Shop: "    Odd:\n        . <- Odd\n"},
 	{Name: "proj-lists-missing-app", Proj: "    odd:\n        Missing\n        Shop\n"},
 	{Name: "proj-passthrough-cycle", Proj: "    odd [passthrough=[\"Store\", \"Audit\"]]:\n        Shop\n", Store: "    Back:\n        Audit <- Log2\n", Top: "Audit2:\n    ...\n"},
+	{Name: "iso-annotations-of-unusual-kinds", Shop: "    !type Secret [iso_conf=\"\", iso_integ=[\"red\", \"amber\"]]:\n        s <: string\n    !type Secret2 [iso_conf=[\"red\"], iso_integ=\"\"]:\n        s <: string\n    Odd:\n        . <- OddCallee\n        return ok <: Shop.Secret\n    OddCallee (p <: Shop.Secret, q <: Shop.Secret2):\n        return ok <: Shop.Secret2\n"},
 	{Name: "proj-passthrough-dangling", Proj: "    odd [passthrough=[\"Store\", \"Missing\"]]:\n        Shop\n", Shop: "    Odd:\n        Store <- Nope\n        Missing <- Ep\n"},
 	{Name: "proj-exclude-missing", Proj: "    odd [exclude=[\"Missing\"], passthrough=[\"Nope\"]]:\n        Shop\n"},
 	{Name: "proj-empty-endpoint", Proj: "    odd:\n        ...\n"},
